@@ -266,6 +266,10 @@ def verify_unit(unit):
         rs, meta = build_unit(unit, lenient=True)
         lenient = {"reason": str(e), "dropped": meta.get("dropped_hints", []), "dropped_rewrites": meta.get("dropped_rewrites", [])}
     out = _verify_built(unit, rs, meta)
+    if meta.get("unannotated_loops"):
+        if lenient is None:
+            lenient = {"reason": "loop(s) without invariant: %s" % "; ".join(meta["unannotated_loops"]), "dropped": [], "dropped_rewrites": []}
+        lenient["dropped"] = list(lenient["dropped"]) + list(meta["unannotated_loops"])
     out["lenient"] = lenient
     return out
 
@@ -421,6 +425,36 @@ def load_known():
     return json.load(open(p))
 
 
+def run_purity(pid, cfg):
+    """returns (violations, number of read-only methods checked, coverage dict)"""
+    if not cfg.get("purity"):
+        return [], 0, None
+    import purity as purity_mod
+    pr = purity_mod.run(WORK)
+    if pr["tool_errors"]:
+        raise Inconclusive("purity crate does not type-check against the shims: %s" % "; ".join((t.get("message") or "")[:160] for t in pr["tool_errors"][:3]))
+    missing = sorted(purity_mod.MUTATORS - set(pr["expected_in_mutators"]))
+    if missing:
+        raise Inconclusive("purity canary: the borrow checker reported no mutation inside the known mutators %s" % missing)
+    n_ro = len(pr["readonly_methods_checked"])
+    pcov = {"checker_cmd": pr["cmd"], "readonly_methods_checked": n_ro, "sample": pr["readonly_methods_checked"][:40],
+            "mutators_flagged_as_expected": pr["expected_in_mutators"], "import_rewrites": pr["rewrite_counts"],
+            "wall_s": pr["wall_s"], "violations": [v["obligation"] for v in pr["violations"]]}
+    viol = []
+    os.makedirs(REPLAYS, exist_ok=True)
+    seen_obl = set()
+    for v in pr["violations"]:
+        if v["obligation"] in seen_obl:
+            continue
+        seen_obl.add(v["obligation"])
+        safe = re.sub(r"[^A-Za-z0-9_.-]+", "_", v["obligation"])
+        rp = os.path.join(REPLAYS, "%s-%s.json" % (pid, safe))
+        json.dump({"kind": "obligation", "property": pid, "label": v["obligation"], "repo_source": v["repo_source"], "verifier": "rustc borrow checker against purity/pshims.rs",
+                   "verifier_output": v["rendered"], "note": "a `&self` method that is not a declared mutator reaches a mutating operation on its own state"}, open(rp, "w"), indent=1)
+        viol.append({"label": v["obligation"], "replay": rp, "confirmed": False, "detail": [v["message"] + " @ " + v["repo_source"]]})
+    return viol, n_ro, pcov
+
+
 def check_property(pid, tier, seed):
     t0 = time.time()
     cfg = CONFIG["properties"][pid]
@@ -431,8 +465,10 @@ def check_property(pid, tier, seed):
           "wall_s": 0.0, "violations": 0}
     cov = ev["coverage"]
     out_lines = []
+    purity_viol, purity_n, purity_cov = [], 0, None
     try:
         ensure_replay_bin()
+        purity_viol, purity_n, purity_cov = run_purity(pid, cfg)
         import concurrent.futures
         pool = concurrent.futures.ThreadPoolExecutor(max_workers=8)
         canary_futs = {u: pool.submit(canary_unit, u) for u in cfg["units"]}
@@ -482,8 +518,8 @@ def check_property(pid, tier, seed):
             hinted = set()
             for r in lenient_units:
                 for d in r["lenient"]["dropped"]:
-                    hinted.add(d.split(":")[0] if ": " in d else d)
-            undecided = [f for f in relevant_fail if any((f["fn"] or "") == h or h.startswith((f["fn"] or "\0") + ":") or (f["fn"] or "\0") in h for h in hinted)]
+                    hinted.add(d.split(": ")[0] if ": " in d else d)     # entries are "<fn id>: <what>"
+            undecided = [f for f in relevant_fail if (f["fn"] or "\0") in hinted]
             if undecided:
                 # undecided obligations: only a refutation that replays on the real code counts
                 w = find_witness(pid)
@@ -518,6 +554,14 @@ def check_property(pid, tier, seed):
             got = cov["assumption_scan"][r["unit"]]
             if exp is not None and got != exp:
                 raise Inconclusive("assumption scan of unit %s differs from the committed allow-list: %s vs %s" % (r["unit"], got, exp))
+        # ---- frame / purity obligations decided by the borrow checker (C07)
+        cov["obligations"] += purity_n
+        cov["discharged"] += purity_n - len(set(v["label"] for v in purity_viol))
+        obligations = cov["obligations"]
+        discharged = cov["discharged"]
+        if purity_cov:
+            cov["purity"] = purity_cov
+            cov["checker_cmd"] += "; " + purity_cov["checker_cmd"]
         # ---- vacuity canary (only meaningful when the claim is "everything discharged")
         if not relevant_fail:
             can = {}
@@ -555,6 +599,7 @@ def check_property(pid, tier, seed):
         # ---- violations
         for f in relevant_fail:
             violations.append(report_failure(pid, f, cfg))
+        violations.extend(purity_viol)
         # ---- thorough extras
         if tier == "thorough":
             cov["bounded_checks"] = []
@@ -618,6 +663,20 @@ def check_property(pid, tier, seed):
     except Inconclusive as e:
         # the verifier could not decide (unsupported construct, lost anchor, resource limit).  Only a concrete
         # refutation that replays on the real library may still be reported.
+        if purity_viol:
+            ev["violations"] = len(purity_viol)
+            ev["level"] = "other"
+            ev["coverage"] = {"explanation": "Verus INCONCLUSIVE (%s); the frame (purity) obligations are decided by the borrow checker and failed" % e,
+                              "violations": [{"obligation": v["label"], "replay": v["replay"], "counterexample_confirmed_on_real_code": False} for v in purity_viol],
+                              "purity": purity_cov, "partial": cov}
+            ev["wall_s"] = round(time.time() - t0, 2)
+            json.dump(ev, open(os.path.join(EVID, pid + ".json"), "w"), indent=1)
+            for v in purity_viol:
+                print("VIOLATION property=%s replay=%s no-failing-input-found" % (pid, v["replay"]))
+                print("  obligation: %s" % v["label"])
+                for d in v["detail"][:1]:
+                    print("  " + d[:300])
+            return 1
         w = None
         try:
             w = find_witness(pid)
@@ -668,6 +727,10 @@ def find_witness(pid):
             wp = os.path.join(wdir, w)
             rc, lines, err = run_replay(wp, timeout_s=5)
             hits = [l for l in lines if ("property=%s " % pid) in l and not any(("clause=%s " % c) in l for c in excl)]
+            # clauses that are the executable form of the proved contracts count only together with the ideal clause
+            need = {"C04": ["match_order.time_priority"], "C19": ["pop.fifo_order"]}.get(pid, [])
+            if need and not all(any(("clause=%s " % q) in l for l in lines) for q in need):
+                hits = [h for h in hits if "follows_ticket_order" not in h]
             if rc == 1 and hits:
                 res = (json.load(open(wp)), hits, "witness library %s" % w)
                 break
